@@ -302,8 +302,10 @@ def build_model_runner():
     oc = os.path.join(VERIF, "ocaml")
     out = os.path.join(BUILD, "model_runner")
     with Lock("extract"):
-        ok, mlog, dt = coq_make(["Base/Bytes.vo", "Parser/Pre.vo", "Facts/ParserConsts.vo", "Base/Tok.vo", "Inline/Css.vo"]
-                                if os.path.exists(os.path.join(COQ, "Base", "Tok.v")) else ["Base/Bytes.vo", "Parser/Pre.vo", "Facts/ParserConsts.vo"])
+        proj = set(coq_project_files())
+        want = [f for f in ("Base/Bytes.v", "Base/Tok.v", "Skel/Compose.v", "Parser/Pre.v", "Facts/ParserConsts.v", "Inline/Css.v", "Inline/Html.v",
+                            "Norm/Norm.v", "Width/Model.v") if f in proj]
+        ok, mlog, dt = coq_make([f + "o" for f in want])
         if not ok:
             return None, mlog
         rc, so, se, dt = run(["timeout", "600", "coqc", "-Q", COQ, "GV", os.path.join(COQ, "Extract", "Extract.v")], cwd=oc, timeout=630)
@@ -321,7 +323,8 @@ def model_run(runner, requests, procs=16, timeout=900):
     shards = [list(range(k, len(requests), procs)) for k in range(procs)]
 
     def work(idx):
-        inp = "".join("%s %s\n" % (requests[i][0], requests[i][1].hex()) for i in idx)
+        inp = "".join("%s %s\n" % (requests[i][0], requests[i][1].hex() if isinstance(requests[i][1], (bytes, bytearray))
+                                   else ":".join(x.hex() for x in requests[i][1])) for i in idx)
         rc, so, se, dt = run(["bash", "-c", "ulimit -s unlimited 2>/dev/null; exec %s" % runner], input=inp, timeout=timeout)
         lines = so.split("\n")
         return idx, lines
@@ -331,6 +334,9 @@ def model_run(runner, requests, procs=16, timeout=900):
         for idx, lines in ex.map(work, [s for s in shards if s]):
             for i, line in zip(idx, lines):
                 line = line.strip()
+                if requests[i][0] in ("lex", "check", "merge"):
+                    out[i] = line
+                    continue
                 if line and line not in ("NONE", "BAD"):
                     try:
                         out[i] = bytes.fromhex(line)
@@ -338,6 +344,30 @@ def model_run(runner, requests, procs=16, timeout=900):
                         out[i] = None
                 elif line == "":
                     out[i] = b"" if len(lines) > idx.index(i) else None
+    return out
+
+
+def parse_toks(line):
+    """tokens serialised by the OCaml driver -> list of tuples
+    ("O", name, [(attr, value)...], selfclosed) | ("C", name) | ("T", text) | ("MO", cond) | ("ME",) | ("NO", cond) | ("NE",) | ("CM", text) | ("D", text)"""
+    out = []
+    if not line:
+        return out
+    unh = lambda x: bytes.fromhex(x).decode("utf8", "replace")
+    for item in line.split(";"):
+        parts = item.split(":")
+        k = parts[0]
+        if k == "O":
+            attrs = []
+            if parts[2]:
+                for av in parts[2].split(","):
+                    a, v = av.split("=")
+                    attrs.append((unh(a), unh(v)))
+            out.append(("O", unh(parts[1]), attrs, parts[3] == "1"))
+        elif k in ("ME", "NE"):
+            out.append((k,))
+        else:
+            out.append((k, unh(parts[1]) if len(parts) > 1 else ""))
     return out
 
 
